@@ -34,7 +34,8 @@ def gates(tier):
         "min_decided": {a: 2000 * k for a in APIS} | {"constants": 500 * k, "rename/renumber": 500 * k, "operand purity": 500 * k},
         "shapes": {c: 5 * k for c in ["eps_arc", "multi_initial", "multi_final", "initial_and_final", "depth:3", "sr:Q",
                                       "sr:Boolean", "sr:MaxTimes", "sr:Real", "sr:Float", "op:star", "op:plus", "op:*", "op:+",
-                                      "op:reverse", "const:from_strings", "const:lift", "const:zero", "const:one", "from_strings:prefix-member", "scale:big-automaton"]},
+                                      "op:reverse", "const:from_strings", "const:lift", "const:zero", "const:one", "from_strings:prefix-member", "scale:big-automaton",
+                                      "class:exported-with-semiring-class-weights", "class:base-with-Float"]},
         "min_hashseeds": 2,
     }
 
@@ -97,7 +98,13 @@ def gen_case(rng, spec):
         ops.append(m)
     expr, _ = gen_expr(rng, rng.randint(1, 3), nops)
     maxlen = 3 if spec.get("tier") == "quick" else 4
-    return {"operands": ops, "expr": expr, "R": rng.choice(SEMIRINGS), "maxlen": maxlen}
+    case = {"operands": ops, "expr": expr, "R": rng.choice(SEMIRINGS), "maxlen": maxlen}
+    if rng.random() < 0.15:
+        # the other pairing of automaton class and weight type: the exported class genlm.grammar.WFSA (field_wfsa.WFSA)
+        # over a non-Float semiring - what FST.project and CFG.truncate_length build themselves - and the base class
+        # over the plain-number Float semiring
+        case["klass"] = "base" if case["R"] == "Float" else "exported"
+    return case
 
 
 def run_case(case, ctx):
@@ -112,6 +119,10 @@ def run_case(case, ctx):
 
     R = case["R"]
     cls_ = field_wfsa.WFSA if R == "Float" else base.WFSA
+    cross = case.get("klass")
+    if cross:
+        cls_ = base.WFSA if cross == "base" else field_wfsa.WFSA
+        ctx.shape["class:" + cross + "-with-" + ("Float" if R == "Float" else "semiring-class-weights")] += 1
     Rcls = SR.BY_NAME[R]
     conv, zero, one, idem = lib._conv_for(R)
     strings = list(GG.strings_upto(["a", "b"], case["maxlen"]))
@@ -209,6 +220,12 @@ def run_case(case, ctx):
         if k == "const":
             kind = e[1]
             proto = cls_(Rcls)
+            if cross:
+                # (the exported class's `zero` / `one` are class-level Float constants by design: not used across types)
+                if kind == "zero":
+                    return proto
+                if kind == "one":
+                    return cls_.lift(fsaref.EPS, Rcls.one, R=Rcls)
             if kind == "zero":
                 return proto.zero if R != "Float" else field_wfsa.WFSA.zero
             if kind == "one":
